@@ -28,7 +28,8 @@ Proof.
   - assert (E : LatDefs.l_normbase L = mrowscale (LatDefs.l_base L) (LatDefs.l_ar L) (LatDefs.l_br L) (LatDefs.l_cr L)) by reflexivity.
     rewrite E. apply mrowscale_diag.
   - symmetry. exact G.
-  - reflexivity.
+  - (* same entries up to the order of factors used in the source *)
+    first [reflexivity | unfold L, build, setLatPar; cbv zeta; lat_simpl; f_equal; ring].
   - exists (LatDefs.l_recnormbase L). split; [exact (ok_nr L OK) | exact (ok_iso L OK)].
   - unfold L_epsilon. lra.
 Qed.
